@@ -96,8 +96,12 @@ for _p in ("C01", "C02", "C04", "C09", "C16"):
     tracker(_p)
 
 SSHD_ASSUME = [
-    "bytes, not runes: every class of the generated regexes contains all or no non-ASCII runes (go2v refuses others), so byte-level matching equals Go's rune-level matching",
-    "the model's matcher is the backtracking leftmost-first matcher; that RE2 returns the same match for these flat patterns is assumed and exercised by the correspondence",
+    "bytes vs runes: every class of the generated regexes contains all or no non-ASCII runes; a single-character item over a class WITH them that is not the head of x+ is the rune item IRune "
+    "(one utf8.DecodeRuneInString step; the final `.` of reverseMappingCheckFailedRE / doesNotMapBackToAddrRE), all other items are byte items; go2v refuses (UNSUPPORTED) a pattern that is not "
+    "rune-safe (Model/RegexSpec.v rune_safe: a greedy star over such a class is followed by an ASCII literal, an ASCII-only class byte, $ or the pattern's end; matches start at an ASCII literal or ^), "
+    "and C06_regex_all_patterns_rune_safe re-checks it of the generated list; that Go's rune-level matching equals the model on rune-safe patterns is assumed and exercised directly (stage prims)",
+    "the model's matcher is PROVED sound, complete and priority-correct against a declarative leftmost-first / greedy semantics (C06_regex_*); that Go's regexp returns that match for these flat "
+    "patterns is assumed and exercised by the correspondence, per event (stage sshd) and per FindStringSubmatchIndex call (stage prims)",
     "lines longer than 160 bytes are judged by the oracle only (the model's matcher is polynomial, Go's linear)",
     "data values in which json.Marshal replaced invalid UTF-8 are not compared byte for byte",
     "select with both arms ready is not generated: the hand-off is either taken (reader ready, ctx live) or cancelled (ctx cancelled, no reader)",
@@ -391,3 +395,51 @@ SPECS["C15"].assumptions[0] = (
     "auparse.ParseLogLine is an explicit argument of the processor theorems too (they hold for every parser) AND is modelled: C15_parse_accepts_iff / "
     "_err_header_iff / _err_type_iff / _unmodelled_iff say exactly which lines it accepts and rejects, C15_parse_stops_at is C15_parse_first with the "
     "modelled parser as the oracle (streams inside the modelled domain); level 2 instantiates the correlator with Model/Tracker.v")
+
+
+# Group R: the primitives under the sshd / syslog models, tied function by function (stage harness/prims, both tiers).
+#   regex part  (C06; also C11 C17): the package's own compiled patterns (accessor VerifRegexes, cross-checked against the var
+#                declarations of openssh_regex.go) - FindStringSubmatchIndex + MatchString on texts generated from each pattern's
+#                structure, all indices compared in Coq with find_idx / Lib.Regex.find / matches on the regenerated
+#                Gen/SshdRegexes.v entry of the same name (Model/PrimsCheck.v)
+#   strings part (C07): every Lib/GoStrings.v function against package strings, atoi against strconv.Atoi
+PRIMS_OVERLAY = {"processors/sshd/verif_export.go": "harness/overlay/sshd_regex_verif.go"}
+
+
+def prims_regex(pid, n_quick=60, n_thorough=900):
+    return [("prims", PRIMS_OVERLAY, ["-mode", "regex", "-prop", pid, "-n", str(n_thorough)], False,
+             ["-mode", "regex", "-prop", pid, "-n", str(n_quick)])]
+
+
+def prims_strings(pid, n_quick=40, n_thorough=600):
+    return [("prims", PRIMS_OVERLAY, ["-mode", "strings", "-prop", pid, "-n", str(n_thorough)], False,
+             ["-mode", "strings", "-prop", pid, "-n", str(n_quick)])]
+
+
+PRIMS_REGEX_ASSUME = [
+    "the matcher is no longer only 'the textbook backtracking matcher': Lib.Regex.find is PROVED, for every item list, text and start offset, sound, complete and "
+    "priority-correct against a declarative leftmost-first / greedy semantics (Model/RegexSpec.v: Parse, lex_ge, Best; theorems C06_regex_* in Props/C06.v); what stays "
+    "assumed is that Go's regexp implements that semantics for these flat patterns - now exercised directly: stage prims -mode regex calls FindStringSubmatchIndex and "
+    "MatchString of the package's own compiled patterns on texts generated from each pattern's structure and compares ALL indices with the model in Coq",
+    "bytes vs runes, made precise: a pattern is rune-safe (Model/RegexSpec.v rune_safe; the harness computes it from regexp/syntax, the Coq checker recomputes it from the "
+    "generated item list and the two must agree, case RP) when every class holds all or none of the bytes >= 0x80, every single-BYTE item over an all-high class is the head of x+ "
+    "(elsewhere go2v emits the rune item IRune) and every greedy star over one is followed by an ASCII literal, an ASCII-only class byte, $ or the pattern's end; all 20 patterns "
+    "are rune-safe (go2v refuses others), so the comparison runs on ALL texts (multi-byte runes, invalid UTF-8, NUL); for a pattern that were not, only ASCII texts would be "
+    "compared and the rest counted as outside the domain. Proved at byte level: ASCII offsets and the end of the text are rune boundaries of Go's decoding loop in any byte string, "
+    "a rune-safe star ends at one, IRune consumes one decoding step (C06_regex_ascii_offset_is_boundary, _star_ends_at_boundary, _rune_item_is_one_step)",
+]
+PRIMS_STRINGS_ASSUME = [
+    "Lib/GoStrings.v and Model/SshdProc.atoi are tied function by function to package strings / strconv.Atoi (stage prims -mode strings) and characterised by the "
+    "C07_strings_* theorems (first occurrence, split/join round trip, piece count, cut, prefix/suffix, trim, strict total byte order, arithmetic mod 2^64 / 2^32, "
+    "atoi s = Some z <-> sign-and-digits syntax with value z in the int64 range); domain guards carried by the cases: Split for a non-empty separator (Go splits "
+    "into UTF-8 sequences otherwise), TrimLeft for an ASCII cutset",
+]
+for _p in ("C06", "C11", "C17"):
+    SPECS[_p].thorough_extra = SPECS[_p].thorough_extra + prims_regex(_p, 60 if _p == "C06" else 25, 900 if _p == "C06" else 300)
+    SPECS[_p].assumptions = SPECS[_p].assumptions + PRIMS_REGEX_ASSUME
+    SPECS[_p].modelled = SPECS[_p].modelled + ["Go regexp (FindStringSubmatchIndex / MatchString) on the flat patterns: Lib/Regex.v, hand-written, PROVED against Model/RegexSpec.v, tied by stage prims -mode regex"]
+    SPECS[_p].extra_targets = SPECS[_p].extra_targets + ["Model/PrimsCheck.vo"]
+SPECS["C07"].thorough_extra = SPECS["C07"].thorough_extra + prims_strings("C07")
+SPECS["C07"].assumptions = SPECS["C07"].assumptions + PRIMS_STRINGS_ASSUME
+SPECS["C07"].modelled = SPECS["C07"].modelled + ["package strings (HasPrefix HasSuffix TrimPrefix TrimSuffix Index Cut Split Join TrimLeft), string <, indexing/slicing panics, uint64/int32 arithmetic, strconv.Atoi: Lib/GoStrings.v + Model/SshdProc.atoi, hand-written, tied by stage prims -mode strings"]
+SPECS["C07"].extra_targets = SPECS["C07"].extra_targets + ["Model/PrimsCheck.vo"]
